@@ -178,28 +178,51 @@ func (c *cx) hashElem(parts ...any) *big.Int {
 
 // ---- the model ------------------------------------------------------------------------------------
 
-type tables struct{ lag, cos []*big.Int }
+type tables struct {
+	lag []*big.Int
+	cos map[string][]*big.Int // by coset shift
+}
 
 // shared is the part of a model that no operation changes.
 type shared struct {
 	c    *cx
 	p    ref.Poly // the denoted polynomial, degree < size
 	size int
-	s    *big.Int // coset shift of every domain of this history (nil = package default)
+	s    *big.Int // coset shift of the domain the initial object refers to (nil = package default)
+	// pal: the coset shifts (fft.WithShift; nil = package default) of the domains later conversions may be
+	// given. Empty: every domain of the history has shift s.
+	pal  []*big.Int
 	mu   sync.Mutex
 	tabs map[int]*tables
 }
 
 func (sh *shared) tab(n int) *tables {
-	sh.mu.Lock()
-	defer sh.mu.Unlock()
 	t := sh.tabs[n]
 	if t == nil {
-		d := sh.c.dom(n, sh.s)
-		t = &tables{lag: sh.p.LagrangeValues(d.ref), cos: sh.p.CosetValues(d.ref)}
+		t = &tables{lag: sh.p.LagrangeValues(sh.c.dom(n, nil).ref), cos: map[string][]*big.Int{}}
 		sh.tabs[n] = t
 	}
 	return t
+}
+
+// lagTab / cosTab: p on <w_n> and on s<w_n>, point by point.
+func (sh *shared) lagTab(n int) []*big.Int {
+	sh.mu.Lock()
+	defer sh.mu.Unlock()
+	return sh.tab(n).lag
+}
+
+func (sh *shared) cosTab(n int, s *big.Int) []*big.Int {
+	sh.mu.Lock()
+	defer sh.mu.Unlock()
+	t := sh.tab(n)
+	key := fmt.Sprint(s)
+	v := t.cos[key]
+	if v == nil {
+		v = sh.p.CosetValues(sh.c.dom(n, s).ref)
+		t.cos[key] = v
+	}
+	return v
 }
 
 // model = library object + what it must denote.
@@ -218,39 +241,61 @@ type model struct {
 	initLen   int
 	ops       []opRec  // operations applied so far (to rebuild an object with spare capacity, which Clone would lose)
 	tags      []string // class labels of the last operation
+	// cs: coset shift of the domain the object currently refers to (meaningful in LagrangeCoset basis: the values
+	// are p on cs<w>); lastDom: shift of the domain passed to the last conversion. Unset: the initial shift s.
+	cs, lastDom       *big.Int
+	csSet, lastDomSet bool
+}
+
+func (m *model) curShift() *big.Int {
+	if m.csSet {
+		return m.cs
+	}
+	return m.s
+}
+
+func (m *model) lastDomShift() *big.Int {
+	if m.lastDomSet {
+		return m.lastDom
+	}
+	return m.s
 }
 
 type opRec struct{ op, variant, maxLen int }
 
 func (m *model) desc() string {
-	return fmt.Sprintf("%s size=%d len=%d form=%s shift=%d cosetshift=%v history=%v p=%s",
-		m.c.I.Name(), m.size, m.n, m.form, m.shift, m.s, m.hist, hxs(m.p.C))
+	return fmt.Sprintf("%s size=%d len=%d form=%s shift=%d cosetshift(initial)=%v cosetshift(current)=%v history=%v p=%s",
+		m.c.I.Name(), m.size, m.n, m.form, m.shift, m.s, m.curShift(), m.hist, hxs(m.p.C))
 }
 
-// entry returns the k-th entry (natural order, shift 0) the form denotes on a vector of length n.
-func (sh *shared) entry(basis, n, k int) *big.Int {
+// entryS returns the k-th entry (natural order, shift 0) the form denotes on a vector of length n; for the
+// LagrangeCoset basis relative to the coset s<w_n>.
+func (sh *shared) entryS(basis, n, k int, s *big.Int) *big.Int {
 	switch basis {
 	case inst.Canonical:
 		return sh.p.Coeff(k)
 	case inst.Lagrange:
-		return sh.tab(n).lag[k]
+		return sh.lagTab(n)[k]
 	default:
-		return sh.tab(n).cos[k]
+		return sh.cosTab(n, s)[k]
 	}
 }
 
-// entries returns the storage-order vector of the given form on length n.
-func (sh *shared) entries(f inst.IopForm, n int) []*big.Int {
+// entriesS returns the storage-order vector of the given form on length n (coset basis: on s<w_n>).
+func (sh *shared) entriesS(f inst.IopForm, n int, s *big.Int) []*big.Int {
 	out := make([]*big.Int, n)
 	for k := 0; k < n; k++ {
 		i := k
 		if f.Layout == inst.BitReverse {
 			i = ref.PolyBitRev(k, n)
 		}
-		out[i] = sh.entry(f.Basis, n, k)
+		out[i] = sh.entryS(f.Basis, n, k, s)
 	}
 	return out
 }
+
+// entries: the same relative to the initial coset shift (how initial objects are built).
+func (sh *shared) entries(f inst.IopForm, n int) []*big.Int { return sh.entriesS(f, n, sh.s) }
 
 // newModel builds the library polynomial directly in the given form on a vector of length n
 // (n = rho·size; for rho > 1 the object is declared "extended" with SetSize(size)).
@@ -304,7 +349,7 @@ func (m *model) checkShape(t TB) {
 		t.Fatalf("C20: Size()=%d len=%d, want %d, %d\n  state: %s", m.lib.Size(), m.lib.Len(), m.size, m.n, m.desc())
 	}
 	got := m.lib.Coefficients()
-	want := m.entries(m.form, m.n)
+	want := m.entriesS(m.form, m.n, m.curShift())
 	for i := range want {
 		if got[i].Cmp(want[i]) != 0 {
 			t.Fatalf("C20: stored entry %d is %s, the form %s denotes %s\n  state: %s", i, hx(got[i]), m.form, hx(want[i]), m.desc())
@@ -320,10 +365,10 @@ func (m *model) wantCoeff(i, k int) (*big.Int, bool) {
 		if k != 0 {
 			return nil, false
 		}
-		return m.entry(inst.Canonical, m.n, i), true
+		return m.entryS(inst.Canonical, m.n, i, nil), true
 	}
 	rho := m.n / m.size
-	return m.entry(m.form.Basis, m.n, mod(i+rho*mod(k, m.size), m.n)), true
+	return m.entryS(m.form.Basis, m.n, mod(i+rho*mod(k, m.size), m.n), m.curShift()), true
 }
 
 // checkCoeffs compares GetCoeff(i) under Shift(k) for the given indices; restores m.shift afterwards.
@@ -351,7 +396,7 @@ func (m *model) canEvaluate() bool { return m.form.Basis != inst.LagrangeCoset |
 
 // wantEval is p(ω_size^k · x) by Horner.
 func (m *model) wantEval(x *big.Int, k int) *big.Int {
-	w := m.c.dom(m.size, m.s).ref.W
+	w := m.c.dom(m.size, nil).ref.W
 	g := m.c.F.Exp(w, bi(int64(k)))
 	return m.p.Eval(m.c.F.Mul(g, x))
 }
@@ -419,7 +464,7 @@ var pointClasses = []string{"random", "zero", "one", "domain", "coset", "minus_o
 
 // point returns an evaluation point of the named class; j varies the member.
 func (m *model) point(class string, j int) *big.Int {
-	d := m.c.dom(m.n, m.s).ref
+	d := m.c.dom(m.n, m.curShift()).ref // coset points: of the coset the object currently refers to
 	switch class {
 	case "zero":
 		return bi(0)
@@ -433,7 +478,7 @@ func (m *model) point(class string, j int) *big.Int {
 		if m.size == 1 {
 			return new(big.Int).Set(d.S)
 		}
-		return m.c.dom(m.size, m.s).ref.Point(1 + j%(m.size-1))
+		return m.c.dom(m.size, nil).ref.Point(1 + j%(m.size-1))
 	default:
 		return m.c.hashElem("x", m.size, j)
 	}
@@ -492,9 +537,24 @@ func (m *model) apply(t TB, op, variant, maxLen int) bool {
 		}
 		n = 2 * m.n
 	}
-	d := m.c.dom(n, m.s)
+	// the domain handed to a conversion: an object in LagrangeCoset basis refers to one coset, so its domain is
+	// given; otherwise any domain of the right cardinality serves, whatever its coset shift (fft.WithShift)
+	ds := m.curShift()
+	conv := op == opToCanonical || op == opToLagrange || op == opToLagrangeCoset || n != m.n
+	if conv && m.form.Basis != inst.LagrangeCoset && len(m.pal) > 0 {
+		ds = m.pal[mod(variant/3, len(m.pal))]
+	}
+	d := m.c.dom(n, ds)
 	m.tags = nil
+	if conv {
+		name += "{s=" + fmt.Sprint(ds) + "}"
+		m.tags = append(m.tags, "domshift:"+shiftKind(ds))
+		if fmt.Sprint(ds) != fmt.Sprint(m.lastDomShift()) {
+			m.tags = append(m.tags, "domshift_changes")
+		}
+	}
 	if n != m.n {
+		m.tags = append(m.tags, shiftPairClass(m.lastDomShift(), ds))
 		m.tags = append(m.tags, "grow_from:"+m.form.String())
 		if m.spare && m.lib.Cap() >= n {
 			m.tags = append(m.tags, "grow_into_spare")
@@ -511,6 +571,7 @@ func (m *model) apply(t TB, op, variant, maxLen int) bool {
 		m.adoptLayout(t, inst.Lagrange)
 	case opToLagrangeCoset, opGrowCoset:
 		m.guard(t, name, func() { m.lib.ToLagrangeCoset(d.lib) })
+		m.cs, m.csSet = ds, true
 		m.adoptLayout(t, inst.LagrangeCoset)
 		m.cosetOK = true
 	case opToRegular:
@@ -562,6 +623,9 @@ func (m *model) apply(t TB, op, variant, maxLen int) bool {
 		m.spare = false
 	}
 	m.n = n
+	if conv {
+		m.lastDom, m.lastDomSet = ds, true
+	}
 	if op == opGrowCanonical {
 		// ToCanonical on an object that already is canonical converts nothing; that it still zero-pads to the
 		// domain size is an implementation detail, so both lengths are accepted (the denoted polynomial is the same)
@@ -598,4 +662,39 @@ func iopsSelected() []inst.Iop {
 		}
 	}
 	return out
+}
+
+func shiftKind(s *big.Int) string {
+	if s == nil {
+		return "default"
+	}
+	return "custom"
+}
+
+// shiftPairClass classifies the coset shifts of a (small, big) pair of domains.
+func shiftPairClass(small, big *big.Int) string {
+	switch {
+	case small == nil && big == nil:
+		return "shift:none"
+	case small != nil && big == nil:
+		return "shift:small"
+	case small == nil:
+		return "shift:big"
+	case small.Cmp(big) == 0:
+		return "shift:both_same"
+	default:
+		return "shift:both_diff"
+	}
+}
+
+// shiftPalette returns the domain shifts a history may use: the package default and two constants the
+// reference accepts for every cardinality up to maxN (s^maxN != 1).
+func shiftPalette(c *cx, maxN int) []*big.Int {
+	pal := []*big.Int{nil}
+	for _, v := range []int64{7, 11, 13, 17} {
+		if s := bi(v); c.validShift(s, maxN) && len(pal) < 3 {
+			pal = append(pal, s)
+		}
+	}
+	return pal
 }
